@@ -138,6 +138,17 @@ Section Proofs.
   Definition present (doc : list (pystr * pyval)) (fd : tfd) : list (pystr * pyval) :=
     match alist_get doc (f_name fd) with Some v => [(f_name fd, v)] | None => [] end.
 
+  (* a value its __set__ chain stores unchanged is not the empty list / dict NoneField turns into None *)
+  Lemma reg_leaf_prim_normal f v :
+    vset re_match [] f v = Ok v -> reg_leaf re_match sdeser (LPrim f) v = Ok v.
+  Proof.
+    intro H. destruct f; cbn [reg_leaf]; try exact H.
+    destruct (empty_container v) eqn:E; [|exact H].
+    destruct v as [| | | |l| | | |kv| | |]; try discriminate E.
+    - destruct l; [|discriminate E]. vm_compute in H. discriminate H.
+    - destruct kv; [|discriminate E]. vm_compute in H. discriminate H.
+  Qed.
+
   Lemma collect_flat dc dc0 c kv doc : forall fs,
       (forall fd, In fd fs -> flat_field c kv doc fd) ->
       collect_reg (reg_store re_match sdeser ostore dc dc0) [] c kv fs = Ok (flat_map (present doc) fs).
@@ -149,7 +160,7 @@ Section Proofs.
       (match alist_get doc (f_name fd) with Some v => [(f_name fd, v)] | None => [] end).
     rewrite Hl.
     destruct (alist_get doc (f_name fd)) as [v|] eqn:E; [|reflexivity].
-    rewrite Hty. cbn [reg_store reg_leaf]. rewrite (Hv v eq_refl). cbn [bind].
+    rewrite Hty. cbn [reg_store]. rewrite (reg_leaf_prim_normal f v (Hv v eq_refl)). cbn [bind].
     rewrite (lookup_reg_not_none [] c kv (f_name fd) v Hl).
     reflexivity.
   Qed.
